@@ -186,7 +186,22 @@ func randomInput(r *core.RNG, seed uint64) Input {
 					g := core.Pick(r, generics)
 					var args []string
 					for range g.TParams {
-						args = append(args, core.Pick(r, basics))
+						// the argument: a basic type, or a same-package defined map / scalar / struct of a lower level
+						var local []string
+						for _, m := range maps {
+							local = append(local, m.Name)
+						}
+						for _, m := range scalars {
+							local = append(local, m.Name)
+						}
+						for _, m := range lower {
+							local = append(local, m.Name)
+						}
+						if len(local) > 0 && r.Chance(35) {
+							args = append(args, core.Pick(r, local))
+						} else {
+							args = append(args, core.Pick(r, basics))
+						}
 					}
 					d.Fields = append(d.Fields, fn(fname, g.Name, args...))
 				default:
@@ -470,9 +485,144 @@ func treeShapes(tier string) []tshape {
 	return out
 }
 
+// ---- generic structs instantiated with same-package defined types ----
+//
+// Added after seeded change C17-g (methods of a generic struct rendered from the INSTANCE the generator met first instead
+// of from its origin).  The methods of G[T] must be the same whatever instantiation leads to G: what is generated depends
+// on (1) HOW G is reached - on demand through a field of an instantiation (G untagged, or tagged but sorting after its
+// user) or from its own tag before its user - and (2) WHICH instantiation is met first in field order, and what kind of
+// type its argument is.  Argument kinds: a basic type, a defined map, a defined scalar, a defined struct of scalars, a
+// defined struct holding a slice and a map (all same-package).
+var argKinds = []string{"int", "map", "scalar", "pstruct", "cstruct"}
+
+// argDecl: the declaration a type argument of that kind needs ("" for basic) and the argument's name
+func argDecl(kind, suffix string, tagged bool) (string, *Decl) {
+	switch kind {
+	case "map":
+		return "Labels" + suffix, &Decl{Name: "Labels" + suffix, Kind: DMap, Tag: tagged, Key: "string", Elem: "string"}
+	case "scalar":
+		return "Level" + suffix, &Decl{Name: "Level" + suffix, Kind: DScalar, Tag: tagged, Base: "int32"}
+	case "pstruct":
+		return "Point" + suffix, &Decl{Name: "Point" + suffix, Kind: DStruct, Tag: tagged, Fields: []Field{fb("X", "int"), fb("Y", "float64")}}
+	case "cstruct":
+		return "Dep" + suffix, &Decl{Name: "Dep" + suffix, Kind: DStruct, Tag: tagged, Fields: []Field{fsl("S", "int"), fm("M", "string", "bool"), fb("N", "string")}}
+	}
+	return "string", nil
+}
+
+// genericMode: how the generic struct is reached.  0 = untagged (on demand only), 1 = tagged, sorts AFTER its user (on
+// demand first, its own turn later), 2 = tagged, sorts BEFORE its user (from its origin first)
+func genericName(mode, i int) string {
+	switch mode {
+	case 2:
+		return fmt.Sprintf("APage%d", i)
+	}
+	return fmt.Sprintf("Page%d", i)
+}
+
+// genericArgsInput: one user struct ("Root", or "Mid" below a tagged Root when nested) whose fields are instantiations of the
+// generic structs gs[i] = Page_i[T]{Item T; Total int} with the argument kinds of insts[i], in that field order.
+func genericArgsInput(r *core.RNG, mode int, insts [][]string, nested bool, argTagged bool, seed uint64) Input {
+	var decls []Decl
+	seen := map[string]bool{}
+	user := Decl{Name: "Root", Kind: DStruct, Tag: true}
+	if nested {
+		user = Decl{Name: "Mid", Kind: DStruct}
+	}
+	user.Fields = append(user.Fields, fb("ID", "string"))
+	for i, kinds := range insts {
+		g := Decl{Name: genericName(mode, i), Kind: DStruct, Tag: mode != 0, TParams: []string{"T"},
+			Fields: []Field{fp("Item", KTParam, "T"), fb("Total", "int")}}
+		if r.Chance(30) {
+			g.Fields = append(g.Fields, fsl("Rows", "string"))
+		}
+		if r.Chance(30) { // the type-parameter field is not the first field
+			g.Fields[0], g.Fields[1] = g.Fields[1], g.Fields[0]
+		}
+		decls = append(decls, g)
+		for j, k := range kinds {
+			name, d := argDecl(k, "", argTagged)
+			if d != nil && !seen[name] {
+				seen[name] = true
+				decls = append(decls, *d)
+			}
+			user.Fields = append(user.Fields, fn(fmt.Sprintf("F%d_%d", i, j), g.Name, name))
+		}
+	}
+	user.Fields = append(user.Fields, fsl("Tags", "string"))
+	decls = append(decls, user)
+	if nested {
+		decls = append(decls, Decl{Name: "Root", Kind: DStruct, Tag: true, Fields: []Field{fn("Mid", "Mid"), fm("M", "string", "int")}})
+	}
+	for i := len(decls) - 1; i > 0; i-- { // source order is irrelevant to gengo, not to go/types
+		j := r.Intn(i + 1)
+		decls[i], decls[j] = decls[j], decls[i]
+	}
+	return Input{Seed: seed, Decls: decls}
+}
+
+// genericArgsInputs: quick = per mode, the four non-basic argument kinds each FIRST (before an int instantiation of the same
+// generic struct) in one package and each SECOND in another (6 packages), the single instantiation with a defined type
+// and no other (mode 0), two generic structs with two type parameters, and random ones (nested below an untagged struct,
+// tagged argument types, three instantiations); thorough = every ordered pair of argument kinds x every mode as a
+// package of its own, single instantiations, and more random ones.
+func genericArgsInputs(r *core.RNG, tier string) []Input {
+	var out []Input
+	seed := func() uint64 { return r.Uint64() % 1000000 }
+	locals := argKinds[1:]
+	for mode := 0; mode < 3; mode++ {
+		var first, second [][]string
+		for _, k := range locals {
+			first = append(first, []string{k, "int"})
+			second = append(second, []string{"int", k})
+		}
+		out = append(out, genericArgsInput(r.Fork(), mode, first, false, false, seed()), genericArgsInput(r.Fork(), mode, second, false, false, seed()))
+	}
+	var single [][]string
+	for _, k := range locals {
+		single = append(single, []string{k})
+	}
+	out = append(out, genericArgsInput(r.Fork(), 0, single, false, false, seed()))
+	// two type parameters: Pair[K, V]{Key K; Val V}; the defined type as first / second argument
+	pair := Decl{Name: "Pair", Kind: DStruct, TParams: []string{"K", "V"}, Fields: []Field{fp("Key", KTParam, "K"), fp("Val", KTParam, "V"), fm("M", "string", "int")}}
+	_, lab := argDecl("map", "", false)
+	_, lev := argDecl("scalar", "", false)
+	out = append(out, Input{Seed: seed(), Decls: []Decl{pair, *lab, *lev,
+		st("Root", true, fn("A", "Pair", "string", "Labels"), fn("B", "Pair", "int", "string"), fn("C", "Pair", "Level", "int"))}})
+	nr := 4
+	if tier == "thorough" {
+		nr = 40
+		for mode := 0; mode < 3; mode++ {
+			for _, a := range argKinds {
+				for _, b := range argKinds {
+					out = append(out, genericArgsInput(r.Fork(), mode, [][]string{{a, b}}, false, false, seed()))
+				}
+			}
+			if mode > 0 {
+				out = append(out, genericArgsInput(r.Fork(), mode, single, false, false, seed()))
+			}
+		}
+	}
+	for i := 0; i < nr; i++ {
+		var insts [][]string
+		for g, ng := 0, 1+r.Intn(2); g < ng; g++ {
+			var kinds []string
+			for k, nk := 0, 1+r.Intn(3); k < nk; k++ {
+				kinds = append(kinds, core.Pick(r, argKinds))
+			}
+			insts = append(insts, kinds)
+		}
+		out = append(out, genericArgsInput(r.Fork(), r.Intn(3), insts, r.Chance(50), r.Chance(30), seed()))
+	}
+	return out
+}
+
 func (prop) Generate(r *core.RNG, tier string) []json.RawMessage {
 	var out []json.RawMessage
 	for _, c := range corner() {
+		out = append(out, enc(c))
+	}
+	for _, c := range genericArgsInputs(r.Fork(), tier) {
 		out = append(out, enc(c))
 	}
 	// trees of by-value struct dependencies, only the root tagged: the fixed shapes in every field order, then random
@@ -534,6 +684,11 @@ func (prop) Shrink(raw json.RawMessage) []json.RawMessage {
 			for _, f := range d.Fields {
 				if (f.K == KNamed || f.K == KPtr || f.K == KSliceOf) && f.A == name {
 					return true
+				}
+				for _, a := range f.Args { // a type argument
+					if a == name {
+						return true
+					}
 				}
 			}
 		}
